@@ -3,7 +3,7 @@
 from linear_operator.operators import MaskedLinearOperator
 
 from .. import settings
-from ..distributions import MultivariateNormal
+from ..distributions import MultitaskMultivariateNormal, MultivariateNormal
 from ..likelihoods import _GaussianLikelihoodBase
 from .marginal_log_likelihood import MarginalLogLikelihood
 
@@ -67,6 +67,9 @@ class ExactMarginalLogLikelihood(MarginalLogLikelihood):
 
         # Remove NaN values if enabled
         if settings.observation_nan_policy.value() == "mask":
+            if isinstance(output, MultitaskMultivariateNormal):
+                # the mask below indexes the flattened n x t event row by row: that is the interleaved layout
+                output = output._as_interleaved()
             observed = settings.observation_nan_policy._get_observed(target, output.event_shape)
             output = MultivariateNormal(
                 mean=output.mean[..., observed],
